@@ -237,3 +237,9 @@ V("C05", "twin_setdefault_walk", "silent", [(TP, "            if key not in loca
 V("C05", "twin_eafp_walk", "silent", [(TP, "            if key not in local_tree:\n                local_tree[key] = odict()\n            local_tree = local_tree[key]", "            try:\n                local_tree = local_tree[key]\n            except KeyError:\n                child = odict()\n                local_tree[key] = child\n                local_tree = child")])
 V("C05", "walk_no_descent_on_create", "fire", [(TP, "            if key not in local_tree:\n                local_tree[key] = odict()\n            local_tree = local_tree[key]", "            if key in local_tree:\n                local_tree = local_tree[key]\n            else:\n                local_tree[key] = odict()")], rule="C05.R3")
 V("C05", "walk_shares_one_child", "fire", [(TP, "    tree = odict()\n    for stack in _stacked(splitter(text), tuple(comments)):", "    tree = odict()\n    empty = odict()\n    for stack in _stacked(splitter(text), tuple(comments)):"), (TP, "            if key not in local_tree:\n                local_tree[key] = odict()\n            local_tree = local_tree[key]", "            if key not in local_tree:\n                local_tree[key] = empty\n            local_tree = local_tree[key]")], rule="C05.R3")
+V("C05", "stacked_truncate_off_by_one", "fire", [(TP, "            stack = stack[:level - 1] + [line]", "            stack = stack[:level] + [line]")], rule="C05.R3")
+V("C05", "stacked_same_depth_pushes", "fire", [(TP, "        elif level == len(stack):\n            stack[-1] = line", "        elif level == len(stack):\n            stack.append(line)")], rule="C05.R3")
+V("C05", "twin_stacked_del_append", "silent", [(TP, "        level += 1\n        if level > len(stack):\n            stack.append(line)\n        elif level == len(stack):\n            stack[-1] = line\n        else:\n            stack = stack[:level - 1] + [line]\n", "        del stack[level:]\n        stack.append(line)\n")])
+V("C03", "strip_drops_affected", "fire", [(PT, "        if op == Op.UNCHANGED:\n            continue\n        children = strip_unchanged(children)", "        if op in (Op.UNCHANGED, Op.AFFECTED):\n            continue\n        children = strip_unchanged(children)")], rule="C03.R4")
+V("C03", "mark_unchanged_any", "fire", [(PT, "            if all(x[0] == Op.UNCHANGED for x in children):", "            if any(x[0] == Op.UNCHANGED for x in children):")], rule="C03.R4")
+V("C03", "mark_unchanged_unmarked_children", "fire", [(PT, "            children = mark_unchanged(children)\n            if all(x[0] == Op.UNCHANGED for x in children):", "            if all(x[0] == Op.UNCHANGED for x in mark_unchanged(children)):")], rule="C03.R4")
